@@ -1083,6 +1083,36 @@ def gen_contexts(rng, structs):
     return c
 
 
+def gen_wrap_in_burst(rng, kind):
+    """ONE burst of more than 65536 commands with a window >= 3 in which the first two commands are lost and stay
+    outstanding (very long time-out) while the 16-bit sequence counter comes round to their numbers: both must be
+    skipped.  Judged by the oracle only (a quarter of a megabyte through 4-byte chunks is not given to Coq)."""
+    B = 4
+    n = 4 * (65536 + rng.randint(3, 40))
+    base = rand_base(rng, n + 8)
+    op = ["conn_read", 0, base, n] if kind == "read" else ["conn_write", 0, base, ["pat", rng.randrange(1000), n]]
+    c = base_case(rng, B, rng.choice([3, 4, 8]), [op], tag="wrap-in-burst", preset=True, nomodel=True, lean=True,
+                  n_tries=5, timeout=10 ** 6, advance_seq=rng.choice([0, 7, 65530, 40000]))
+    c["plan"] = {"0": {"lost": True, "replies": []}, "1": {"lost": True, "replies": []}}
+    return c
+
+
+def gen_app_core_first(rng):
+    """the controller's first sver goes to an application core whose kernel advertises a bigger buffer than the
+    monitor's; reads / writes (which go by the monitor's buffer) follow"""
+    B = rng.choice([16, 256])
+    big = rng.choice([2 * B, 512, 4 * B])
+    p = rng.randint(1, 17)
+    ops = []
+    for _ in range(rng.choice([2, 3])):
+        n = rng.choice([2 * B + 3, 3 * B, big + 1, 2 * big])
+        a = rand_base(rng, n + 8) + rng.randrange(4)
+        q = rng.choice([0, 0, p])
+        ops.append(rng.choice([["read", q, a, n], ["write", q, a, ["pat", rng.randrange(1000), n]]]))
+    return base_case(rng, B, rng.choice([1, 2, 8]), ops, tag="app-core-first", preset=False, first_sver=p,
+                     core_buffers={str(p): big})
+
+
 def gen_malformed(rng):
     B = rng.choice([4, 16, 256])
     pool = [
@@ -1176,6 +1206,8 @@ def run(chk, args):
         singles += [gen_seqwrap(rng) for _ in range(24 if quick else 300)]
         singles += [gen_rebooted(rng, default_text) for _ in range(60 if quick else 600)]
         singles += [gen_contexts(rng, structs) for _ in range(90 if quick else 1500)]
+        singles += [gen_wrap_in_burst(rng, k) for k in (["read", "write"] if quick else ["read", "write"] * 4)]
+        singles += [gen_app_core_first(rng) for _ in range(40 if quick else 400)]
         singles += [gen_bigfill(rng, k) for k in range(10 if quick else 60)]
         singles += gen_names(rng, structs)
         singles += [gen_unrecoverable(rng, structs) for _ in range(150 if quick else 3000)]
@@ -1205,10 +1237,12 @@ def run(chk, args):
     dbg("generated")
     flat = [c for g in groups for c in g]
     size = 400
-    chunks = [flat[i:i + size] for i in range(0, len(flat), size)]
+    heavy = [c for c in flat if c.get("lean")]             # each in a process of its own, started first
+    light = [c for c in flat if not c.get("lean")]
+    chunks = [[c] for c in heavy] + [light[i:i + size] for i in range(0, len(light), size)]
     outs = [o for part in chk.impl_parallel("impl_c07.py", chunks, timeout=3000) for o in part]
     results = {}
-    for c, o in zip(flat, outs):
+    for c, o in zip(heavy + light, outs):
         results[id(c)] = o
 
     # ---- oracle on every implementation run
@@ -1265,6 +1299,8 @@ def run(chk, args):
                 c = g[0]
                 if results[id(c)] in (["hang"], ["skipped"]) and c["kind"] != "nonterm":
                     continue
+                if c.get("nomodel"):         # a 65540-command burst: oracle only
+                    continue
                 ps = probe_windows(c, case_structs(c, structs))
                 full = bool(c.get("plan"))
                 exprs.append(coq_case(c, structs, ps, full))
@@ -1274,7 +1310,7 @@ def run(chk, args):
             for g in groups:
                 for c in g:
                     res = results[id(c)]
-                    if not isinstance(res[0], dict) or c["kind"] != "valid":
+                    if not isinstance(res[0], dict) or c["kind"] != "valid" or c.get("nomodel"):
                         continue
                     k += 1
                     big = sum(len(t[7]) + len(t[9]) for r in res for t in r["trace"]) // 2
@@ -1355,7 +1391,9 @@ def run(chk, args):
         "stream); a connection whose 16-bit sequence counter wraps in the middle of a multi-packet write / read; a "
         "controller re-booted with a struct file whose sv / vcpu fields have moved (model: Model/MemOpsState.v ctl_boot); "
         "calls whose x, y, p come from kept Context objects entered again under other enclosing contexts; "
-        "unrecoverable schedules (1-3 tries, 55% of the transmissions lost, 10% refused with a fatal return "
+        "one burst of > 65536 commands (window >= 3) whose first two commands stay outstanding while the sequence counter "
+        "comes round (oracle only); the controller's first sver sent to an application core that advertises a bigger "
+        "buffer than the monitor; unrecoverable schedules (1-3 tries, 55% of the transmissions lost, 10% refused with a fatal return "
         "code): the call may raise, a normal return must still be exact. "
         "Non-trivial = valid case with >= 2 commands, or a non-word command, or a fill/link command, or a faulted run; "
         "distinct by hash of (buffer, window, initial memory, chip, calls, fault plan)")
